@@ -9,7 +9,7 @@ DIMS = {"lay": 12, "inf": 6, "base": 6, "hs": 6, "par": 5, "kind": 3, "nm": 9, "
 SPEC_FILES = ["ContentFormat.tla", "ContentFormatMC.tla", "ContentFormat_gen.cfg", "ContentFormat_check.cfg",
               "ContentFormat_damage.cfg", "ContentSave.tla", "ContentSaveTrace.tla", "ContentSaveTrace.cfg",
               "ContentSave_n1.cfg", "ContentSave_n2.cfg", "ContentSave_n3.cfg", "ContentSave_n4.cfg",
-              "ContentSave_unguarded.cfg"]
+              "ContentSave_unguarded.cfg", "ContentSave_lastonly.cfg"]
 
 
 def rundir(tag):
